@@ -21,12 +21,12 @@ line_state, vbus_valid, session_valid, session_end) are recorded.
 Oracle (written from ULPI 1.1 3.8.1/3.8.2, no luna code): a reference decoder walks the wire log: receive start = DIR
 rising with NXT or RxCmd with RxActive; while a receive is open every NXT-qualified byte is a data byte; end = DIR falling
 or RxCmd with RxActive=0.  Judged:
-  * the sequence of (rx_valid, rx_data) equals the reference data bytes, in order, each once, each within 1..4 cycles of
+  * the sequence of (rx_valid, rx_data) equals the reference data bytes, in order, each once, each within 1..3 cycles of
     its wire cycle (no exact latency demanded); nothing else may appear (RxCmd / turnaround / register data as data);
   * rx_valid only while rx_active;
-  * rx_active equals the reference RxActive whenever that has been stable for 4 cycles;
+  * rx_active equals the reference RxActive whenever that has been stable for 3 cycles (current latencies are 1 and 2; one more pipeline register is tolerated);
   * line_state / vbus_valid / session_valid / session_end equal the decode of the most recent RxCmd whenever no RxCmd is
-    younger than 4 cycles (before the first RxCmd nothing is judged);
+    younger than 3 cycles (before the first RxCmd nothing is judged);
   * read sub-case: read_data = PHY register content, one `done` per request, the register-data cycle is never taken as an
     RxCmd, RxCmds around the read are taken.
 
@@ -56,12 +56,12 @@ REQUIRED_BINS = ["start_dirnxt", "start_rxcmd_dir_rising", "start_rxcmd_dir_high
 REQUIRED_EVENTS = ["bytes_expected", "bytes_matched", "rxcmds_presented", "rx_active_cycles_judged", "status_cycles_judged",
                    "receives", "regwrites_committed", "reads_done", "read_data_compared", "rx_valid_strobes"]
 ASSUMPTIONS = ["PHY histories are those of the reference ULPI 1.1 model: NXT-qualified bytes only inside a receive, turnaround on every DIR edge",
-               "latency of the translation is not constrained beyond 1..4 cycles",
-               "status flags are judged only from the first RxCmd on and only when no RxCmd is younger than 4 cycles",
+               "latency of the translation is not constrained beyond 1..3 cycles",
+               "status flags are judged only from the first RxCmd on and only when no RxCmd is younger than 3 cycles",
                "register reads are exercised on ULPIRegisterWindow+ULPIRxEventDecoder wired as in UTMITranslator (the translator never reads)",
                "start-up counter (_CYCLES_1_MILLISECONDS) scaled to 10-80 cycles in the cases with a rst pin"]
 
-W = 4
+W = 3
 
 
 class Collector:
